@@ -1,6 +1,7 @@
 """C10 -- database queries return exactly the fits satisfying the predicate (DESIGN.md section 5, C10)."""
 import json
 import os
+import random
 import re
 import subprocess
 
@@ -629,6 +630,20 @@ def gen_cases(ctx):
         if len(db) >= 4:
             for _ in range(2 if d % 2 == 0 else 1):
                 cases.append(gen_chain_case(rng, db))
+        # negation chains BY CONSTRUCTION (every database, own random stream): every kind of atom -- path comparison, fit
+        # attribute, info condition, == None -- under two and three negations and under a negated junction that holds a
+        # negated atom (De Morgan re-negates the children: `~` must be its own inverse for every query class)
+        nrng = random.Random(ctx.seed * 7919 + d)
+        npool = make_pool(nrng, db, 3)
+        atoms = [lambda: gen_info(nrng, db), lambda: gen_cmp(nrng, npool, dom_of(db)), lambda: gen_attr(nrng, db),
+                 lambda: gen_info(nrng, db), lambda: gen_none_cmp(nrng, npool)]
+        a = atoms[d % len(atoms)]()
+        b = atoms[(d // len(atoms) + 1) % len(atoms)]()
+        shapes = [["not", ["not", a]], ["not", ["and", ["not", a], b]], ["not", ["or", ["not", a], b]],
+                  ["not", ["not", ["not", a]]], ["and", ["not", ["not", a]], b], ["not", ["and", b, ["not", ["not", a]]]]]
+        npred = shapes[(d // 2) % len(shapes)]
+        ctx.hist("negation_chain", "%s:%s" % (a[0], ["nn", "n(n&)", "n(n|)", "nnn", "nn&", "n(&nn)"][(d // 2) % len(shapes)]))
+        cases.append({"kind": "query", "db": db, "pred": npred, "top_only": nrng.random() < 0.5, "chain": False})
         if d % (3 if thorough else 2) == 0:
             gdb = gen_grid_db(rng, thorough)
             gpool = lambda: make_pool(rng, gdb, 3)
